@@ -15,8 +15,9 @@ raise; otherwise the residual must consist of exactly the denoted elements, arra
 
 Tie: the Lean model `PymocaVerif.Model.Index` (driver `drv_c23`) computes the same canonical outcome from the
 code's own rules (1-based conversion, range checks that exist, CasADi's slice / index-list semantics).
-The model has three switches for checks that the tree may or may not contain (`Cfg`): they are read off the
-real code's behaviour on three probe inputs at the start of the run and reported in the evidence file.
+The model has three switches for checks (`Cfg`): slice-bound check, loop-index check, start:step:stop reading
+of three-part ranges.  The tree contains all three since commits 4aad8e2 and b779a95 (`Cfg.checked`), and the
+model is asked for that variant; `Cfg.asIs` is the tree before them, in which findings C23-F1..F3 were recorded.
 """
 import itertools
 import json
@@ -33,8 +34,10 @@ TRUSTED = ["CasADi's MX indexing (Slice::all, index lists with wrap-around, subm
 ASSUMPTIONS = ["at most one subscript of a reference depends on the loop index; loop bodies hold one equation; one loop level",
                "slice steps and loop steps given through parameters are non-negative (negative steps reach CasADi's "
                "reversed-slice rules, which are not modelled)",
-               "a loop range whose start or step is not an integer literal is a spelling the backend rejects "
-               "(AttributeError); that rejection is tolerated by the oracle (the property is about subscripts)",
+               "a loop range whose start or step is not an integer literal, and a subscript holding a literal with a "
+               "unary minus, are spellings the backend cannot evaluate (AttributeError / RuntimeError); rejecting them "
+               "when they denote valid elements is tolerated by the oracle (the property is about out-of-range subscripts)",
+               "dimension sizes are at least 1",
                "an exception of any class raised by generate() counts as 'generation fails with an error'",
                "rejecting a subscript that denotes nothing (empty range, loop without iterations) is tolerated"]
 
@@ -281,8 +284,12 @@ def spec(case):
 
 
 def tolerated_spelling(case):
-    """Loop ranges whose start / step are not integer literals are rejected by ForLoop.__init__ whatever the
-    subscripts are (ASSUMPTIONS)."""
+    """Spellings the backend cannot evaluate, whatever the subscripts denote (ASSUMPTIONS): a literal with a unary
+    minus inside a subscript (get_integer raises on it; in this window it only matters for descending three-part
+    ranges), and loop ranges whose start / step are not integer literals (ForLoop.__init__ reads `.value`)."""
+    for s in case.get("subs", []):
+        if s[0] in ("idx", "range", "range3") and any(x[0] == "neg" for x in s[1:]):
+            return True
     loop = case.get("loop")
     if not loop:
         return False
@@ -320,8 +327,14 @@ PROBES = {
 }
 
 
+# The tree as it is now (commits 4aad8e2, b779a95): all three checks are present.  The model is always asked
+# for this variant; the probes only document in the evidence file what the three canonical inputs do.
+CURRENT_CFG = {"sliceCheck": True, "loopCheck": True, "stepOrder": True}
+
+
 def probe_cfg(ctx):
-    """Which of the optional checks does the tree contain?  Read off three probe inputs."""
+    """Reads the three checks off three probe inputs (evidence only) and returns the variant the model is
+    asked for: the current tree's."""
     cfg = {}
     r = run_real(PROBES["sliceCheck"])
     cfg["sliceCheck"] = r["o"] == "error"
@@ -330,7 +343,10 @@ def probe_cfg(ctx):
     r = run_real(PROBES["stepOrder"])
     cfg["stepOrder"] = r == {"o": "sel", "rows": [[[0, 0]], [[2, 0]]]}
     ctx.extra["model_cfg_probed"] = cfg
-    return cfg
+    ctx.extra["model_cfg_used"] = CURRENT_CFG
+    if cfg != CURRENT_CFG:
+        ctx.notes.append("probe inputs behave like variant %s, the model is asked for %s" % (cfg, CURRENT_CFG))
+    return dict(CURRENT_CFG)
 
 
 def nontrivial(case):
